@@ -572,7 +572,9 @@ class Sim(object):
             except Exception:
                 return d
         q = {"cmd": str(cmd), "name": str(pr.get("name", "")), "lname": str(pr.get("name", "")).lower(),
-             "hasname": "name" in pr, "mid": str(mid or ("m%d" % self.req_seq))
+             "hasname": "name" in pr,
+             "pattern": isinstance(pr.get("name"), str) and pr.get("match", "glob") != "simple"
+             and any(ch in pr["name"] for ch in "*?["), "mid": str(mid or ("m%d" % self.req_seq))
              if mid is not False else "", "waiting": bool(pr.get("waiting")), "cast": bool(cast),
              "pid": self.kernel.short(_i(pr.get("pid"), 0)) if "pid" in pr else -1,
              "signum": ref_signum(pr.get("signum")) if "signum" in pr else -1,
